@@ -879,6 +879,8 @@ def _to_c_expr(
                 return _fold([emit(arg) for arg in n.args])
             if n.keywords:
                 raise ValueError("unsupported keyword arguments in call")
+            # record the call signature so that a helper variant typed for these arguments exists
+            _infer_arg_type(n)
             args_rendered = ", ".join(emit(arg) for arg in n.args)
             return f"{fname}({args_rendered})"
 
